@@ -302,6 +302,37 @@ theorem caller_id (w : World) (c i : Nat) (cn : Conn) (im : Impl) (hs : Headers)
   · unfold needsId
     simp [hc, hci, hany]
 
+/-- the source builds a new `_HttpConnImpl` for every connection made from an address (no pooling per
+server, whatever the scheme or spelling of the address) — re-decided when the source changes -/
+theorem new_allocates_ok : Gen.C16.newAllocates = true := by decide
+
+/-- **independent connections count on their own**: a connection made from an address gets an
+implementation object of its own with the counter at 0 (ids enabled) — whatever address the other
+connections were made from; every connection and implementation object that existed stays as it was
+and no existing connection refers to the new object. -/
+theorem new_fresh_counter (w : World) (cp : List Char) (ids : Bool)
+    (hwf : ∀ (c : Nat) (cn : Conn), w.conns[c]? = some cn → cn.impl < w.impls.length) :
+    let r := w.newImpl cp ids
+    r.1.conns[r.2]? = some { impl := w.impls.length, adapters := [] } ∧
+    r.1.impls[w.impls.length]? = some { ctr := if ids then some 0 else none, cp := cp } ∧
+    (∀ (c : Nat) (cn : Conn), w.conns[c]? = some cn → r.1.conns[c]? = some cn ∧ cn.impl ≠ w.impls.length) ∧
+    (∀ (i : Nat) (im : Impl), w.impls[i]? = some im → r.1.impls[i]? = some im) ∧ r.1.dicts = w.dicts := by
+  intro r
+  refine ⟨by simp [r, World.newImpl], by simp [r, World.newImpl], ?_, ?_, rfl⟩
+  · intro c cn hc
+    have hlt : c < w.conns.length := by
+      apply Classical.byContradiction
+      intro hge
+      rw [List.getElem?_eq_none (by omega)] at hc; cases hc
+    have := hwf c cn hc
+    exact ⟨by simp [r, World.newImpl, List.getElem?_append_left hlt, hc], by omega⟩
+  · intro i im hi
+    have hlt : i < w.impls.length := by
+      apply Classical.byContradiction
+      intro hge
+      rw [List.getElem?_eq_none (by omega)] at hi; cases hi
+    simp [r, World.newImpl, List.getElem?_append_left hlt, hi]
+
 /-- every connection class of the source has a constructor that provably passes `conn_data` on to
 `_HttpConnBase.__init__`, which takes `parent_conn.conn_impl` (re-decided whenever the source changes) -/
 theorem constructors_share : ∀ kc, kc ∈ Gen.C16.wrapKinds → kc.2 = true := by decide
